@@ -242,6 +242,30 @@ def run(ck, m):
         h, e = cells(m.get(TY, f"{cname}.__hash__")), cells(m.get(TY, f"{cname}.__eq__"))
         ck.ob("R5", m.get(TY, f"{cname}.__hash__"), bool(h) and h <= e, f"{cname}.__hash__ reads {sorted(h - e)} which __eq__ does not compare: equal objects can hash differently", stmt=f"{cname}: hash cells subset of eq cells")
 
+        # equality is by value: a hash that depends on object identity (`is`, id()) separates objects that compare equal
+        hfn = m.get(TY, f"{cname}.__hash__")
+        ident = [x for x in body_walk(hfn) if (isinstance(x, ast.Compare) and any(isinstance(o, (ast.Is, ast.IsNot)) for o in x.ops) and not any(isinstance(c_, ast.Constant) and c_.value is None for c_ in [x.left] + x.comparators))
+                 or (isinstance(x, ast.Call) and call_name(x) == "id")]
+        ck.ob("R5", enclosing_stmt(ident[0]) if ident else hfn, not ident, f"{cname}.__hash__ depends on object identity (`{short(ident[0], 50) if ident else ''}`) while __eq__ compares by value: an equal object that is "
+              "not the very same one hashes differently (dict / set lookups with equal keys fail)", stmt=f"{cname}: __hash__ does not test identity")
+
+    # the render class of a *set* of render arguments may own no namespace class: whether it is compatible with another class is a question for the
+    # class hierarchy (issubclass); the namespace tables (`_namespaces`, `_ALL_DEFAULT_ARGS`) list only the classes that own one
+    n_tbl = 0
+    for rel_, q_, fn_ in m.functions():
+        if rel_ != TY:
+            continue
+        for x in body_walk(fn_):
+            if isinstance(x, ast.Compare) and len(x.ops) == 1 and isinstance(x.ops[0], (ast.In, ast.NotIn)):
+                rt = norm(_trace(fn_, x.comparators[0], use=x))
+                lt = _trace(fn_, x.left, use=x)
+                if "._ALL_DEFAULT_ARGS" in rt or "._namespaces" in rt:
+                    n_tbl += 1
+                    set_cls = isinstance(lt, ast.Attribute) and lt.attr == "render_cls"
+                    ck.ob("R3", enclosing_stmt(x), not set_cls, f"{q_}: `{short(x, 60)}` looks the render class of a set of render arguments up in a namespace table: a class without render arguments of its own is in no such "
+                          "table although it is a perfectly good ancestor - compatibility of render classes is decided with issubclass()", stmt=f"{q_}: set render class not looked up in a namespace table: {short(x, 40)}")
+    ck.extra["namespace_table_tests"] = n_tbl
+
     # ---- R7: derived sets carry everything they were derived from ---------------------------------
     # update(), convert() and to_render_args() build their result with the RenderArgs constructor (whose precedence rules R4 checks) from
     # *all* their inputs: `self` (or the namespaces selected from it) is always among the constructor's arguments, the given
